@@ -1235,12 +1235,16 @@ class AsyncBackgroundBatcher(Generic[A_contra, R_co]):
                             fut.set_exception(e)
                     else:
                         fut.set_result(result)
-        except Exception as e:
+        except BaseException as e:
             logger.debug("Exception while processing batch", exc_info=True)
             for fut in futs.values():
                 if not fut.done():
                     fut.set_exception(e)
-            return
+            if isinstance(e, Exception):
+                return
+            if isinstance(e, aio.CancelledError) and not _cancelling():
+                return  # Raised by the function, this task wasn't cancelled
+            raise
 
         if futs:
             logger.error("Missing outputs for %d futures", len(futs))
